@@ -441,3 +441,103 @@ func ParityUnitCount(f *Func, word, a, b string) int {
 	both := regexp.MustCompile(`(?i)(` + a + `|` + b + `)s?`)
 	return len(parityUnits(f, re, both))
 }
+
+// SeqAsym is a pair of sibling variables (headers/cookies) that receive the same calls in a different order.
+type SeqAsym struct {
+	VarA, VarB, Method string
+	Pos                token.Pos
+	SeqA, SeqB         []string
+}
+
+// SeqParityWords are the concept pairs whose sibling variables must be fed in the same order.
+var SeqParityWords = [][2]string{{"header", "cookie"}, {"header", "param"}, {"cookie", "param"}, {"header", "trailer"}}
+
+// SeqParity compares, for every local variable of f named after word a and its sibling named after word b, the
+// order of the calls of one method on them (headers.Merge(x.Headers) … / cookies.Merge(x.Cookies) …): calls on one
+// receiver are order-dependent (a later Merge wins), and the two families are meant to be treated alike.
+func SeqParity(f *Func, a, b string) []SeqAsym {
+	info := f.Pkg.TypesInfo
+	type key struct {
+		v types.Object
+		m string
+	}
+	type call struct {
+		norm string
+		pos  token.Pos
+	}
+	groups := map[key][]call{}
+	var order []key
+	re := regexp.MustCompile(`(?i)(` + a + `|` + b + `)`)
+	ast.Inspect(f.Decl.Body, func(n ast.Node) bool {
+		c, ok := n.(*ast.CallExpr)
+		if !ok {
+			return true
+		}
+		se, ok := Unparen(c.Fun).(*ast.SelectorExpr)
+		if !ok {
+			return true
+		}
+		id, ok := Unparen(se.X).(*ast.Ident)
+		if !ok {
+			return true
+		}
+		o := ObjOf(info, id)
+		if _, isVar := o.(*types.Var); !isVar {
+			return true
+		}
+		var args []string
+		for _, x := range c.Args {
+			args = append(args, re.ReplaceAllString(types.ExprString(x), "□"))
+		}
+		k := key{o, se.Sel.Name}
+		if _, seen := groups[k]; !seen {
+			order = append(order, k)
+		}
+		groups[k] = append(groups[k], call{strings.Join(args, ", "), c.Pos()})
+		return true
+	})
+	var out []SeqAsym
+	for _, k := range order {
+		name := strings.ToLower(k.v.Name())
+		if !strings.Contains(name, a) || len(groups[k]) < 2 {
+			continue
+		}
+		want := strings.Replace(name, a, b, 1)
+		for _, k2 := range order {
+			if k2.m != k.m || strings.ToLower(k2.v.Name()) != want || k2.v == k.v {
+				continue
+			}
+			inB, inA := map[string]int{}, map[string]int{}
+			for _, c := range groups[k2] {
+				inB[c.norm]++
+			}
+			for _, c := range groups[k] {
+				inA[c.norm]++
+			}
+			var sa, sb []string
+			var firstPos token.Pos
+			for _, c := range groups[k] {
+				if inB[c.norm] == 1 && inA[c.norm] == 1 {
+					sa = append(sa, c.norm)
+				}
+			}
+			for _, c := range groups[k2] {
+				if inB[c.norm] == 1 && inA[c.norm] == 1 {
+					sb = append(sb, c.norm)
+				}
+			}
+			for i := range sa {
+				if sa[i] != sb[i] {
+					for _, c := range groups[k] {
+						if c.norm == sa[i] {
+							firstPos = c.pos
+						}
+					}
+					out = append(out, SeqAsym{k.v.Name(), k2.v.Name(), k.m, firstPos, sa, sb})
+					break
+				}
+			}
+		}
+	}
+	return out
+}
